@@ -164,6 +164,22 @@ def work(ctx):
             k2 = call(lam[0].replace, co_freevars=("b\ud800", "c"), co_names=("g\udc01",))
             if k2[0] == "ok":
                 both("surrogate-freevars-names", k2[1])
+    # ---- a trailing line-table entry past the last instruction (the `_additional_line` field):
+    #      with a line, and on 3.10 a no-line range (line None) - hand-altered headers of real code
+    if sys.version_info >= (3, 8):
+        tiny = compile("pass", "<c07-trailing>", "exec")
+        n = len(tiny.co_code)
+        if sys.version_info >= (3, 10):
+            tables = [bytes([n, 1, 2, 0x80]), bytes([n, 1, 2, 1]), bytes([n, 1, 2, 0x80, 0, 3]), bytes([n, 0x80, 4, 0x80])]
+            kw = "co_linetable"
+        else:
+            tables = [bytes([n, 1]), bytes([n, 1, 0, 127, 0, 5]), bytes([n, 0x80, 0, 0x80])]
+            kw = "co_lnotab"
+        for t in tables:
+            k2 = call(tiny.replace, **{kw: t})
+            if k2[0] == "ok":
+                ctx.count("trailing-line-entry")
+                both("trailing-line-entry%r" % (list(t),), k2[1])
     # ---- corpus and generated programs
     for origin, k in corpus.code_objects(ctx.tier, rng, limit=25):
         both(origin, k)
